@@ -19,6 +19,7 @@ Column kinds used in plans (values are plain Python data):
 """
 
 import datetime
+import fractions
 import math
 import os
 
@@ -52,6 +53,8 @@ def np_array(kind, vals):
         return np.array(vals, dtype=f"<U{n}")
     if kind in DT_UNITS:
         return np.array(["NaT" if v is None else v for v in vals], dtype=f"datetime64[{DT_UNITS[kind]}]")
+    if kind == "tn":
+        return np.array(["NaT" if v is None else v for v in vals], dtype="datetime64[ns]")
     if kind == "td":
         return np.array(["NaT" if v is None else v for v in vals], dtype="timedelta64[s]")
     if kind in ("o", "oi", "ob"):
@@ -151,7 +154,7 @@ def plan_isna(kind, v):
         return v == ""
     if kind in ("i", "i32", "i8", "u8", "b", "y"):
         return False
-    return v is None
+    return v is None                             # d, t, tm, ts, tn, td, o, oi, ob
 
 
 _EPOCH = datetime.datetime(1970, 1, 1)
@@ -181,6 +184,12 @@ def pcell(kind, v):
         return bool(v)
     if kind in DT_UNITS:
         return ("T", iso_to_us(v))
+    if kind == "tn":
+        # nanosecond timestamps (what pandas and Arrow hand over): microseconds, exact, as an int or a Fraction
+        head, _, frac = v.partition(".")
+        frac = (frac + "000000000")[:9]
+        ns = iso_to_us(head) * 1000 + int(frac)
+        return ("T", ns // 1000 if ns % 1000 == 0 else fractions.Fraction(ns, 1000))
     if kind == "td":
         return ("D", int(v) * 1000000)
     if kind == "y":
@@ -197,6 +206,9 @@ def acell(x, stringish):
     if isinstance(x, np.datetime64):
         if np.isnat(x):
             return None
+        if np.datetime_data(x.dtype)[0] in ("ns", "ps", "fs", "as"):
+            ns = int(x.astype("datetime64[ns]").astype(np.int64))
+            return ("T", ns // 1000 if ns % 1000 == 0 else fractions.Fraction(ns, 1000))
         return ("T", int(x.astype("datetime64[us]").astype(np.int64)))
     if isinstance(x, np.timedelta64):
         if np.isnat(x):
@@ -282,7 +294,7 @@ def dtype_tag(a):
 def kind_dtype_tag(kind):
     return {"f": "float64", "f32": "float32", "i": "int64", "i32": "int32", "i8": "int8", "u8": "uint8", "b": "bool", "s": "string",
             "u": "U", "d": "datetime64[D]", "t": "datetime64[us]", "tm": "datetime64[ms]",
-            "ts": "datetime64[s]", "td": "timedelta64[s]", "o": "object", "oi": "object",
+            "ts": "datetime64[s]", "tn": "datetime64[ns]", "td": "timedelta64[s]", "o": "object", "oi": "object",
             "ob": "object", "y": "S"}[kind]
 
 
